@@ -3,6 +3,7 @@ package main
 
 import (
 	"bytes"
+	"encoding/json"
 	"flag"
 	"fmt"
 	"go/ast"
@@ -26,13 +27,37 @@ var swaps = map[string][2]string{ // import path -> {default name, replacement p
 	"math/rand/v2":           {"rand", "vsimrt/simrand"},
 }
 
-type stats struct{ imports, gos, afterfunc, now, recv, selects, multisel, sleeps, mapranges, files int }
+type stats struct{ imports, gos, afterfunc, now, recv, selects, multisel, sleeps, mapranges, files, probes int }
 
 var st stats
+
+type probeSpec struct {
+	Pkg  string `json:"pkg"`  // import path
+	Recv string `json:"recv"` // receiver type name ("" for plain functions)
+	Func string `json:"func"`
+	Name string `json:"name"` // probe name seen by the harness
+}
+
+var probes []probeSpec
+
+func loadProbes() {
+	path := os.Getenv("VSIM_PROBES")
+	if path == "" {
+		return
+	}
+	b, err := os.ReadFile(path)
+	if err != nil {
+		return
+	}
+	if err := json.Unmarshal(b, &probes); err != nil {
+		fatal(fmt.Errorf("probes file %s: %v", path, err))
+	}
+}
 
 func main() {
 	dir := flag.String("dir", "", "module dir to load from")
 	flag.Parse()
+	loadProbes()
 	patterns := flag.Args()
 	cfg := &packages.Config{
 		Mode: packages.NeedName | packages.NeedFiles | packages.NeedCompiledGoFiles | packages.NeedSyntax | packages.NeedTypes | packages.NeedTypesInfo | packages.NeedImports | packages.NeedDeps,
@@ -229,6 +254,56 @@ func instrumentFile(p *packages.Package, f *ast.File) bool {
 		return true
 	}
 	astutil.Apply(f, nil, post)
+
+	// entry/exit probes for the functions named in probes.json: defer simrt.Probe(name, recv, params..., &results...)()
+	for _, d := range f.Decls {
+		fd, ok := d.(*ast.FuncDecl)
+		if !ok || fd.Body == nil {
+			continue
+		}
+		for _, ps := range probes {
+			if ps.Pkg != p.PkgPath || ps.Func != fd.Name.Name {
+				continue
+			}
+			recvName := ""
+			if fd.Recv != nil && len(fd.Recv.List) == 1 {
+				t := fd.Recv.List[0].Type
+				if st, ok := t.(*ast.StarExpr); ok {
+					t = st.X
+				}
+				if id, ok := t.(*ast.Ident); ok {
+					recvName = id.Name
+				}
+			}
+			if recvName != ps.Recv {
+				continue
+			}
+			args := []ast.Expr{&ast.BasicLit{Kind: token.STRING, Value: strconv.Quote(ps.Name)}}
+			if fd.Recv != nil && len(fd.Recv.List[0].Names) == 1 {
+				args = append(args, ast.NewIdent(fd.Recv.List[0].Names[0].Name))
+			}
+			for _, fl := range fd.Type.Params.List {
+				for _, n := range fl.Names {
+					if n.Name != "_" {
+						args = append(args, ast.NewIdent(n.Name))
+					}
+				}
+			}
+			if fd.Type.Results != nil {
+				for _, fl := range fd.Type.Results.List {
+					for _, n := range fl.Names {
+						if n.Name != "_" {
+							args = append(args, &ast.UnaryExpr{Op: token.AND, X: ast.NewIdent(n.Name)})
+						}
+					}
+				}
+			}
+			deferStmt := &ast.DeferStmt{Call: &ast.CallExpr{Fun: simrtCall("Probe", args...)}}
+			fd.Body.List = append([]ast.Stmt{deferStmt}, fd.Body.List...)
+			st.probes++
+			needSimrt, changed = true, true
+		}
+	}
 
 	if needSimrt {
 		astutil.AddNamedImport(fset, f, "vsimrt_", "vsimrt/simrt")
